@@ -48,3 +48,4 @@ vk_harness!(c12_run_is_clear_then_jump, {
     vk_cover!(has_line, "reach: run n");
     core::mem::forget(l);
 });
+
